@@ -211,7 +211,9 @@ static size_t ZSTD_decodeLiteralsBlock(ZSTD_DCtx* dctx,
                 } else {
                     if (singleStream) {
 #if defined(HUF_FORCE_DECOMPRESS_X2)
-                        hufSuccess = HUF_decompress1X_DCtx_wksp(
+                        /* note : HUF_decompress1X_DCtx_wksp() would apply standalone-huffman shortcuts
+                         * (cSrcSize >= dstSize) which are not part of the zstd format */
+                        hufSuccess = HUF_decompress1X2_DCtx_wksp(
                             dctx->entropy.hufTable, dctx->litBuffer, litSize,
                             istart+lhSize, litCSize, dctx->workspace,
                             sizeof(dctx->workspace), flags);
